@@ -19,6 +19,10 @@ def jobs(tier, ws, prop='C11'):
                   replace=['ncmpio_wait.c:calculate_access_range', 'qsort', 'ncmpio_wait.c:req_aggregation', 'ncmpio_write_numrecs'], extra_src=MODEL,
                   canaries=['grew', 'agg_error_returned', 'wrote'], unwind=40, kind='bounded', timeout=600, rfp=True,
                   bound='2 sub-requests with symbolic access ranges', assumptions=['wait_getput: calculate_access_range, qsort and req_aggregation by (assumed) contract']))
+    if prop == 'C11':
+        import C16, C19
+        js += [j for j in C16.jobs(tier, ws, prop='C11') if 'fillerup' in j.name][:2]   # F22: failed fill write at enddef reported
+        js += [j for j in C19.var_jobs(tier, 'C11') if 'ndims2' in j.name][:1]   # F21: failed header read never becomes success
     import C02
     js += C02.commit_jobs(tier, prop, only=[(2, 1), (2, 3)] if tier == 'quick' else None) if prop == 'C11' else []   # F19: write-phase error kept
     return js
